@@ -75,6 +75,10 @@ def _w(rng, pairs):
     return pairs[-1][0]
 
 
+class _BodyError(BaseException):
+    """Raised by the body of a with-block (user code), not an Exception subclass."""
+
+
 # =============================================================== reference model
 class Model:
     """What the statement says a FileLock does.  threads 0/1, objects 0/1, one path."""
@@ -156,7 +160,7 @@ ACQ_VARIANTS = {
     'acq_t0_slowpoll': {'blocking': True, 'timeout': 0, 'poll_interval': 0.5},
 }
 SMALL_ALPHABET = ['acq_nb', 'acq_ts', 'rel', 'rel_force']       # per thread, one object
-FULL_ALPHABET = list(ACQ_VARIANTS) + ['ctx', 'ctx_nb', 'ctx_ts', 'with', 'rel', 'rel_force']
+FULL_ALPHABET = list(ACQ_VARIANTS) + ['ctx', 'ctx_nb', 'ctx_ts', 'with', 'rel', 'rel_force', 'with_raise', 'ctx_raise']
 
 
 def op_would_hang(model, t, o, name):
@@ -165,7 +169,7 @@ def op_would_hang(model, t, o, name):
         return m.try_acquire(t, o, **ACQ_VARIANTS[name])[0] == 'hang'
     if name == 'ctx':
         return m.try_acquire(t, o, True, None)[0] == 'hang'
-    if name == 'with':
+    if name in ('with', 'with_raise', 'ctx_raise'):
         return m.try_acquire(t, o, True, None)[0] == 'hang'
     return False
 
@@ -221,11 +225,14 @@ def apply_model(model, t, o, name):
     if name in ACQ_VARIANTS:
         r, mx, mn = model.try_acquire(t, o, **ACQ_VARIANTS[name])
         return ('ret', r), mx, mn
-    if name in ('ctx', 'ctx_nb', 'ctx_ts', 'with'):
-        kw = {'ctx': (True, None), 'ctx_nb': (False, None), 'ctx_ts': (True, SMALL), 'with': (True, None)}[name]
+    if name in ('ctx', 'ctx_nb', 'ctx_ts', 'with', 'with_raise', 'ctx_raise'):
+        kw = {'ctx': (True, None), 'ctx_nb': (False, None), 'ctx_ts': (True, SMALL), 'with': (True, None),
+              'with_raise': (True, None), 'ctx_raise': (True, None)}[name]
         r, mx, mn = model.try_acquire(t, o, *kw)
         if r is True:
             model.release(t, o)
+            if name.endswith('_raise'):
+                return ('body-raised', True), mx, mn       # the body's own exception comes out, the lock is released
             return ('ctx', True), mx, mn
         if r == 'hang':
             return ('hang',), None, None
@@ -301,6 +308,21 @@ class SeqWorld:
                 return ('ctx', inside)
             except TimeoutError:
                 return ('timeout',)
+        if name in ('with_raise', 'ctx_raise'):
+            inside = None
+            try:
+                if name == 'with_raise':
+                    with lock:
+                        inside = lock.is_locked
+                        raise _BodyError()
+                else:
+                    with lock.acquire_ctx():
+                        inside = lock.is_locked
+                        raise _BodyError()
+            except _BodyError:
+                return ('body-raised', inside)
+            except TimeoutError:
+                return ('timeout',)
         if name == 'rel':
             lock.release()
             return ('ret', None)
@@ -368,8 +390,8 @@ class SeqWorld:
     def check_faulted(self, got, exp, before, t, o, name, ctx, fired):
         """Narrow relaxation: the faulted operation may fail or raise; state must stay truthful."""
         ok_kinds = {exp}
-        if name in ACQ_VARIANTS or name in ('ctx', 'ctx_nb', 'ctx_ts', 'with'):
-            ok_kinds |= {('ret', False), ('timeout',), ('ret', True), ('ctx', True)}
+        if name in ACQ_VARIANTS or name in ('ctx', 'ctx_nb', 'ctx_ts', 'with', 'with_raise', 'ctx_raise'):
+            ok_kinds |= {('ret', False), ('timeout',), ('ret', True), ('ctx', True), ('body-raised', True)}
         acceptable = got in ok_kinds or (got and got[0] == 'exc' and got[1] in ('OSError', 'BlockingIOError', 'InterruptedError', 'PermissionError'))
         if not acceptable:
             self.viol('filelock.fault_wrong_result', 'under an injected OS error the operation returned something impossible',
